@@ -1,37 +1,92 @@
 """C06 - xtl::any keeps, copies and returns exactly what was stored, with exact-type casts.
 
+ 0. Compile time: TLC enumerates AnyTypes.tla (which any_cast calls both published specifications of any make
+    well-formed and what they return, which operations are noexcept, the type relations the property rests on);
+    every row becomes static_asserts / real calls for several stored types, compiled with -fsyntax-only against
+    xany.hpp BEFORE the driver is built.  A failing row is a VIOLATION.  Call forms on which the specifications
+    differ (any_cast<U&&>(any&&) ...) and facilities the tree may or may not have (emplace, make_any) are probed;
+    what exists is exercised at run time.
  1. TLC: Any.tla (L1) explored through the liberal generator AnyMC.tla (every alternative the standard
     allows: steal / relocate / leave a moved-from object, pointer swap / relocating swap ...): invariants
-    (no leak, no dangling any, copies independent) and action properties (strong guarantee, observers pure,
-    noexcept operations never throw, untouched objects unchanged).
+    (no leak, no dangling any, copies independent) and action properties (strong guarantee, observers pure and in
+    agreement, noexcept operations never throw, untouched objects unchanged).
  2. TLC: AnyImpl.tla (L2, transcription of xany.hpp: vtable pointer, in-place buffer vs heap, copy-and-swap,
     three-way swap, vtable_stack::swap by three moves) refines Any.tla - every reachable representation
-    state x every call x every argument x every fuse setting.
+    state x every call x every argument x every fuse setting; instrumented payloads and payloads without events.
  3. S->C: the transitions of that exploration (canonical state, call) are replayed on real xtl::any objects
     (state re-established through varying constructor histories); TLC simulation walks of AnyImpl add long
     histories.  What the model predicted for the call (element-event shape, exception, in-place flag) is
     compared too: a mismatch is MODEL-DRIFT (advisory).
- 4. C->S: seeded random call sequences over three any objects (fuse probability 0.3, self-assignment and
-    self-swap included).
+ 4. C->S: seeded random call sequences over three to five any objects (fuse probability 0.3, self-assignment and
+    self-swap included), on several builds of the driver (macros of xany.hpp, compilers, optimisation levels).
  Every recorded line (call, element events of instrumented payload types, result, what the observers say about
- all three objects) is validated by TLC against AnyTrace.tla: L1 is the oracle, and the only source of verdicts.
- The harness runs under ASan+LSan; a sanitizer report or std::terminate ends the trace with a Crash line,
- which no spec action matches.
+ all five objects, owner counts of shared_ptr payloads) is validated by TLC against AnyTrace.tla: L1 is the oracle,
+ and the only source of verdicts.  The harness runs under ASan+LSan; a sanitizer report, std::terminate or a call
+ that does not return ends the trace with a Crash line, which no spec action matches; the driver is restarted on
+ the remaining executions.  A rejection is executed again (same build) and re-validated before it is reported;
+ a handful of distinct ones are reported with replay files, the rest are counted.
 """
-import json, os, random, re, subprocess
+import json, os, random, re, subprocess, threading
 from concurrent.futures import ThreadPoolExecutor
 from vlib import core, tlaval
 from vlib.core import MachineryError
 
-TYPES = ["Small", "Big", "STM"]
+TRACKED = ["Small", "Big", "STM", "NC"]
+UNTRACKED = ["Int", "Str", "CStr", "Fn", "Sp", "Ov", "Nest"]
+TYPES = TRACKED + UNTRACKED
+NEVER = ["CharP", "AnyT", "Arr"]
 VALUE_FORMS = ["lv", "clv", "rv", "crv"]
-CAST_FORMS = ["p_m", "p_mc", "p_c", "p_cc", "p_n", "p_nc", "v_m", "v_mc", "v_c", "v_cc", "v_r", "r_m", "r_mc", "r_c", "r_r"]
+PTR_FORMS = ["p_m", "p_mc", "p_c", "p_cc", "p_n", "p_nc"]
+CAST_FORMS = PTR_FORMS + ["v_m", "v_mc", "v_c", "v_cc", "v_r", "v_rc", "r_m", "r_mc", "r_c", "r_r"]
+OPEN_FORMS = {"lr_r": "LR", "x_r": "XR", "cx_r": "CXR"}        # form -> feature (probed per build)
 ALL_OPS = ["DefaultConstruct", "Construct", "CopyConstruct", "MoveConstruct", "CopyAssign", "MoveAssign", "AssignValue", "Swap",
            "StdSwap", "AReset", "AClear", "Destroy", "DestroyIf", "HasValue", "Empty", "Type", "Cast", "SetVia"]
 PURE_OPS = {"HasValue", "Empty", "Type"}          # calls after which the S->C scripts need not re-establish the state
 TRACE_SPEC, TRACE_CFG = "AnyTrace", "AnyTrace.cfg"
+NA = 5
 # development on a shared machine: VERIF_DEV_WORKERS=4 caps TLC workers and parallel processes (default: all cores)
 NW = max(1, min(core.NCPU, int(os.environ.get("VERIF_DEV_WORKERS", core.NCPU) or core.NCPU)))
+JENV = {"JAVA_TOOL_OPTIONS": "-XX:ParallelGCThreads=2 -XX:CICompilerCount=2"}      # many JVMs run side by side
+
+# build flavours of the driver: macros of xany.hpp, compiler, optimisation level
+FLAVOURS = {
+    "std":   {"flags": []},
+    "fast":  {"flags": ["-DANY_IMPL_FAST_TYPE_INFO_COMPARE"]},
+    "mov":   {"flags": ["-DANY_IMPL_ANY_CAST_MOVEABLE"]},
+    "noexc": {"flags": ["-DXTL_NO_EXCEPTIONS"]},
+    "clang": {"flags": [], "cxx": "clang++"},
+    "O0":    {"flags": ["-O0"]},
+    "O2":    {"flags": ["-O2"]},
+}
+QUICK_FLAVOURS = ["std", "fast", "mov", "noexc"]
+ALL_FLAVOURS = ["std", "fast", "mov", "noexc", "clang", "O0", "O2"]
+MAX_REPORTED = 5          # distinct violations reported with a replay file
+MAX_CONFIRM = 8           # rejections executed again and explained
+MAX_RESTARTS_VALIDATE = 4 # rejected executions cut out of one trace file before the rest of the file is given up
+
+
+def model_check(ctx, module, cfg, what, **kw):
+    """core.tlc_model_check; with VERIF_C06_TLC_CACHE=<dir> (development only: mutation experiments change the headers, not the
+    specs) the result of a run is kept per (cfg, contents of the Any*.tla/cfg files)."""
+    cache = os.environ.get("VERIF_C06_TLC_CACHE")
+    if not cache:
+        return core.tlc_model_check(ctx, module, cfg, what, **kw)
+    import hashlib, pickle
+    h = hashlib.sha1()
+    for fn in sorted(os.listdir(core.SPECS)):
+        if fn.startswith("Any"):
+            h.update(open(os.path.join(core.SPECS, fn), "rb").read())
+    os.makedirs(cache, exist_ok=True)
+    p = os.path.join(cache, "%s-%s-%s.pkl" % (module, cfg, h.hexdigest()[:12]))
+    if os.path.exists(p):
+        r = pickle.load(open(p, "rb"))
+        ctx.cov["states"] += r["distinct"]; ctx.cov["transitions"] += r["generated"]
+        ctx.tlc_runs.append({k: r[k] for k in ("name", "module", "cfg", "rc", "wall_s", "generated", "distinct", "depth", "violated")})
+        ctx.log("TLC %s: (cached) %d distinct states, %d transitions" % (r["name"], r["distinct"], r["generated"]))
+        return r
+    r = core.tlc_model_check(ctx, module, cfg, what, **kw)
+    pickle.dump(r, open(p, "wb"))
+    return r
 
 
 def ev(op, k, **a):
@@ -42,27 +97,277 @@ def ev(op, k, **a):
 RESET = {"op": "Reset", "k": 1, "a": {"z": 0}}
 
 
+# ------------------------------------------------------------------ 0. compile-time table and probes
+TYPE_BASES = ["int", "std::string", "pt::P16", "const char*", "std::shared_ptr<int>"]
+TU_HEAD = r"""// generated by checks/c06.py from the rows TLC enumerated for AnyTypes.tla
+#include <cstdio>
+#include <xtl/xany.hpp>
+#include <memory>
+#include <string>
+#include <type_traits>
+#include <typeinfo>
+#include <utility>
+namespace pt {
+    struct P16 { long long a, b; P16(); P16(const P16&); P16(P16&&) noexcept; P16& operator=(const P16&); };
+    int fun(int);
+}
+"""
+OPERAND_T = {"any&": "xtl::any&", "const any&": "const xtl::any&", "any&&": "xtl::any&&", "any*": "xtl::any*", "const any*": "const xtl::any*"}
+NOEXCEPT_EXPR = {
+    "move_ctor": "std::is_nothrow_move_constructible<xtl::any>::value",
+    "move_assign": "std::is_nothrow_move_assignable<xtl::any>::value",
+    "swap": "noexcept(std::declval<xtl::any&>().swap(std::declval<xtl::any&>()))",
+    "std_swap": "noexcept(std::swap(std::declval<xtl::any&>(), std::declval<xtl::any&>()))",
+    "reset": "noexcept(std::declval<xtl::any&>().reset())",
+    "clear": "noexcept(std::declval<xtl::any&>().clear())",
+    "has_value": "noexcept(std::declval<const xtl::any&>().has_value()) && std::is_same<decltype(std::declval<const xtl::any&>().has_value()), bool>::value",
+    "empty": "noexcept(std::declval<const xtl::any&>().empty()) && std::is_same<decltype(std::declval<const xtl::any&>().empty()), bool>::value",
+    "type": "noexcept(std::declval<const xtl::any&>().type()) && std::is_same<decltype(std::declval<const xtl::any&>().type()), const std::type_info&>::value",
+}
+TRAIT_EXPR = {
+    "bad_any_cast_is_a_bad_cast": "std::is_base_of<std::bad_cast, xtl::bad_any_cast>::value && std::is_convertible<xtl::bad_any_cast*, std::bad_cast*>::value",
+    "copy_constructible": "std::is_copy_constructible<xtl::any>::value",
+    "copy_assignable": "std::is_copy_assignable<xtl::any>::value",
+    "move_constructible": "std::is_move_constructible<xtl::any>::value",
+    "constructible_from_value": "std::is_constructible<xtl::any, {U}>::value && std::is_constructible<xtl::any, {U}&>::value && std::is_constructible<xtl::any, {U} const&>::value",
+    "constructible_from_array": "std::is_constructible<xtl::any, const char (&)[4]>::value",
+    "constructible_from_function": "std::is_constructible<xtl::any, int (&)(int)>::value",
+    "assignable_from_value": "std::is_assignable<xtl::any&, {U}>::value && std::is_assignable<xtl::any&, {U} const&>::value",
+}
+
+
+TRAIT_CALL = {
+    "constructible_from_value": "xtl::any a(u); xtl::any c(static_cast<{U} const&>(u)); xtl::any d(std::move(u)); (void)a; (void)c; (void)d; (void)b;",
+    "assignable_from_value": "b = u; b = static_cast<{U} const&>(u); b = std::move(u);",
+    "constructible_from_array": "xtl::any a(\"abc\"); b = \"abd\"; (void)a; (void)u;",
+    "constructible_from_function": "xtl::any a(pt::fun); b = pt::fun; (void)a; (void)u;",
+    "copy_constructible": "xtl::any a(b); xtl::any c(static_cast<const xtl::any&>(b)); (void)a; (void)c; (void)u;",
+    "copy_assignable": "xtl::any a; a = b; a = static_cast<const xtl::any&>(b); (void)u;",
+    "move_constructible": "xtl::any a(std::move(b)); (void)a; (void)u;",
+}
+
+
+def render_type(t, base):
+    if t["ref"] == "ptr":
+        return ("const " if t["c"] else "") + base + "*" if not base.endswith("*") else base + (" const" if t["c"] else "") + "*"
+    s = (base + " const") if t["c"] else base
+    return s + {"none": "", "lref": "&", "rref": "&&"}[t["ref"]]
+
+
+def row_text(row, base=None):
+    if row["kind"] == "cast":
+        return "any_cast<%s>(%s) -> %s%s" % (render_type(row["target"], base or "U"), row["operand"], render_type(row["ret"], base or "U"),
+                                              " noexcept" if row["nothrow"] else "")
+    return "%s: %s" % (row["kind"], row["operand"])
+
+
+def row_lines(row, base, n):
+    """C++ lines (each on its own line of the translation unit) that must compile for this row."""
+    if row["kind"] == "noexcept":
+        return ['static_assert(%s, "C06ROW %d");' % (NOEXCEPT_EXPR[row["operand"]], n)]
+    if row["kind"] == "trait":
+        out = ['static_assert(%s, "C06ROW %d");' % (TRAIT_EXPR[row["operand"]].replace("{U}", base), n)]
+        if row["operand"] in TRAIT_CALL:     # constructor bodies are instantiated only by a real call
+            out.append("inline void c06_row_%d(%s& u, xtl::any& b) { %s }" % (n, base, TRAIT_CALL[row["operand"]].replace("{U}", base)))
+        return out
+    vt = render_type(row["target"], base)
+    ret = render_type(row["ret"], base)
+    opnd = OPERAND_T[row["operand"]]
+    call = "xtl::any_cast<%s>(std::declval<%s>())" % (vt, opnd)
+    got = "decltype(%s)" % call
+    if row["ret"]["ref"] == "none":
+        # a function returning a const scalar by value returns the unqualified type ([expr]/6): compare modulo top-level cv
+        got, ret_cmp = "typename std::remove_cv<%s>::type" % got, render_type(dict(row["ret"], c=False), base)
+    else:
+        ret_cmp = ret
+    out = ['static_assert(std::is_same<%s, %s>::value%s, "C06ROW %d");' % (
+        got, ret_cmp, (" && noexcept(%s)" % call) if row["nothrow"] else "", n)]
+    # a real call: function bodies are instantiated only when the call is made
+    if row["operand"] in ("any*", "const any*"):
+        out.append("inline void c06_row_%d(%s a) { %s x = xtl::any_cast<%s>(a); (void)x; }" % (n, opnd, ret, vt))
+    elif row["operand"] == "any&&":
+        out.append("inline void c06_row_%d(xtl::any& a) { %s x = xtl::any_cast<%s>(std::move(a)); (void)x; }" % (n, ret, vt))
+    else:
+        out.append("inline void c06_row_%d(%s a) { %s x = xtl::any_cast<%s>(a); (void)x; }" % (n, opnd, ret, vt))
+    return out
+
+
+def type_rows(out):
+    rows = [json.loads(json.loads(l)[3:]) for l in out.splitlines() if l.startswith('"@R@')]
+    return sorted(rows, key=lambda r: json.dumps(r, sort_keys=True))
+
+
+def syntax_only(path, flags=(), cxx=None):
+    cmd = [cxx or core.CXX, "-std=c++14", "-fsyntax-only", "-Wno-deprecated-declarations", "-I", core.INCLUDE] + list(flags) + [path]
+    return core.sh(cmd, timeout=600)
+
+
+def compile_table(ctx, cases, tag, flags=(), cxx=None):
+    """cases: [(id, row, base, [lines])].  Returns {case id: compiler message} for the failing ones."""
+    tdir = ctx.sub("types")
+    p = os.path.join(tdir, "table_%s.cpp" % tag)
+    where = {}
+    n = TU_HEAD.count("\n")
+    with open(p, "w") as f:
+        f.write(TU_HEAD)
+        for cid, row, base, lines in cases:
+            for l in lines:
+                f.write(l + "\n")
+                n += 1
+                where[n] = cid
+    rc, out = syntax_only(p, flags, cxx)
+    if rc == 0:
+        return {}
+    if rc == 124:
+        raise MachineryError("compiling the C06 type table timed out")
+    bad = {}
+    for m in re.finditer(re.escape(os.path.basename(p)) + r":(\d+):\d+: +(?:error|required from here)[^\n]*", out):
+        ln = int(m.group(1))
+        if ln in where:
+            bad.setdefault(where[ln], m.group(0)[:300])
+    for m in re.finditer(r"C06ROW (\d+)", out):
+        bad.setdefault(int(m.group(1)), "static assertion failed")
+    if not bad:
+        # an error that cannot be attributed to a row: the prologue itself (the header does not compile at all)
+        raise MachineryError("the C06 type table does not compile against %s and no row can be blamed:\n%s" % (core.INCLUDE, out[-3000:]))
+    return bad
+
+
+def run_types(ctx, flavours):
+    r = core.tlc_model_check(ctx, "AnyTypes", "AnyTypes.cfg", "any_cast overload table / noexcept / type relations: laws hold on every row; table emitted",
+                             workers=1, env=JENV)
+    if r["violated"] or r["rc"] != 0:
+        raise MachineryError("AnyTypes.tla violates its own theorem %s (oracle bug), see %s" % (r["violated"], r["outfile"]))
+    rows = type_rows(r["out"])
+    if len(rows) < 35:
+        raise MachineryError("type table incomplete: %d rows (see %s)" % (len(rows), r["outfile"]))
+    cases = []
+    for row in rows:
+        if row["status"] != "must":
+            continue
+        for b in (TYPE_BASES if row["kind"] == "cast" or "{U}" in TRAIT_EXPR.get(row["operand"], "") else TYPE_BASES[:1]):
+            cases.append((len(cases), row, b, row_lines(row, b, len(cases))))
+    nlines = sum(len(c[3]) for c in cases)
+    seen, nbad = set(), 0
+    for fl in flavours:
+        spec = FLAVOURS[fl]
+        bad = compile_table(ctx, cases, fl, spec["flags"], spec.get("cxx"))
+        ctx.cov["evaluations"] += nlines
+        for cid in sorted(bad):
+            _, row, base, lines = cases[cid]
+            key = json.dumps(row, sort_keys=True)
+            nbad += 1
+            if key in seen:
+                continue
+            seen.add(key)
+            if len(ctx.violations) < MAX_REPORTED:
+                text = "compile-time row fails in build '%s' with U = %s: %s   [%s]   compiler: %s" % (
+                    fl, base, row_text(row, base), lines[0][:400], bad[cid])
+                report(ctx, text, [{"typerow": row, "base": base}], fl)
+    ctx.notes["type_rows"] = len(rows)
+    ctx.notes["type_rows_demanded"] = len({json.dumps(c[1], sort_keys=True) for c in cases})
+    ctx.notes["type_table_lines_compiled"] = nlines * len(flavours)
+    ctx.notes["type_table_failing_cases"] = nbad
+    ctx.log("type table: %d rows (%d demanded) x base types = %d lines compiled for %d builds; %d failing" % (
+        len(rows), ctx.notes["type_rows_demanded"], nlines, len(flavours), nbad))
+    ctx.sample({"type_row": cases[3][1], "base": cases[3][2], "lines": cases[3][3]})
+    return rows
+
+
+PROBE_BODY = {
+    "LR": "void f(xtl::any& a) { int& x = xtl::any_cast<int&>(std::move(a)); (void)x; std::string& y = xtl::any_cast<std::string&>(std::move(a)); (void)y; }",
+    "XR": "void f(xtl::any& a) { int&& x = xtl::any_cast<int&&>(std::move(a)); (void)x; std::string&& y = xtl::any_cast<std::string&&>(std::move(a)); (void)y; }",
+    "CXR": "void f(xtl::any& a) { const int&& x = xtl::any_cast<const int&&>(std::move(a)); (void)x; const std::string&& y = xtl::any_cast<const std::string&&>(std::move(a)); (void)y; }",
+    "emplace": "void f(xtl::any& a) { a.emplace<int>(1); }",
+    "make_any": "void f() { xtl::any a = xtl::make_any<int>(1); (void)a; }",
+    "in_place": "void f() { xtl::any a(xtl::in_place_type_t<int>(), 1); (void)a; }",
+    "nest_any": "void f(xtl::any& a) { xtl::any b(a); static_assert(sizeof(b) > 0, \"\"); struct W { xtl::any in; }; xtl::any c(W{a}); (void)c; }",
+}
+
+
+def run_probes(ctx, flavours):
+    """Which of the optional call forms / facilities compile in which build.  Returns {flavour: set(features)}."""
+    pdir = ctx.sub("probes")
+    jobs = []
+    for fl in flavours:
+        for name in ("LR", "XR", "CXR"):
+            jobs.append((fl, name))
+    for name in ("emplace", "make_any", "in_place", "nest_any"):
+        jobs.append(("std", name))
+
+    def one(j):
+        fl, name = j
+        p = os.path.join(pdir, "probe_%s_%s.cpp" % (fl, name))
+        with open(p, "w") as f:
+            f.write("#include <cstdio>\n#include <xtl/xany.hpp>\n#include <string>\n#include <utility>\n" + PROBE_BODY[name] + "\n")
+        rc, out = syntax_only(p, FLAVOURS[fl]["flags"], FLAVOURS[fl].get("cxx"))
+        if rc == 124:
+            raise MachineryError("compile probe %s timed out" % name)
+        return rc == 0
+
+    with ThreadPoolExecutor(max_workers=max(2, NW // 2)) as ex:
+        res = list(ex.map(one, jobs))
+    feats = {fl: set() for fl in flavours}
+    table = {}
+    for (fl, name), ok in zip(jobs, res):
+        table.setdefault(name, {})[fl] = ok
+        if ok and name in ("LR", "XR", "CXR"):
+            feats[fl].add(name)
+    ctx.notes["compile_probes"] = table
+    ctx.log("compile probes: " + "; ".join("%s: %s" % (n, ",".join(f for f, ok in sorted(v.items()) if ok) or "absent") for n, v in sorted(table.items())))
+    return feats
+
+
 # ------------------------------------------------------------------ C->S: random scripts
+def val_for(r, t):
+    if t == "CStr":
+        return r.randrange(8)
+    if t == "Fn":
+        return r.randrange(4)
+    if t in ("Sp", "Nest"):
+        return r.choice([1, 2, 3, 7])
+    return r.choice([1, 2, 3, 7, 42, 1000, 65535, 2000000000])
+
+
+def form_for(r, t):
+    if t in ("CStr", "Fn") and r.random() < 0.4:
+        return "decay"
+    return r.choice(VALUE_FORMS)
+
+
 class Gen:
     """Random script generator.  It tracks only which slots hold a constructed any (a C++ precondition of
     placement construction / explicit destruction); it predicts no results.  A constructor call with an armed
     fuse may or may not have produced an object, so it is followed by DestroyIf."""
 
-    def __init__(self, rnd):
+    def __init__(self, rnd, nk, feats=(), noexc=False, types=TYPES):
         self.r = rnd
-        self.c = [False] * 3
+        self.nk = nk
+        self.c = [False] * nk
+        self.noexc = noexc
+        self.types = types
+        self.cast_forms = CAST_FORMS + [f for f, ft in OPEN_FORMS.items() if ft in feats]
 
     def fuse(self, p=0.3):
         x = self.r.random()
         return 0 if x >= p else (1 if x < p * 0.8 else 2)
 
-    def val(self):
-        return self.r.choice([1, 2, 3, 7, 42, 1000, 65535, 2000000000])
+    def typ(self):
+        r = self.r
+        return r.choice(TRACKED) if r.random() < 0.55 else r.choice(self.types)
+
+    def cast(self, k):
+        r = self.r
+        t = r.choice(self.types + self.types + NEVER)
+        forms = PTR_FORMS if t == "Arr" else self.cast_forms
+        if self.noexc and r.random() < 0.8:
+            forms = PTR_FORMS          # XTL_NO_EXCEPTIONS: a failing value/reference cast ends the process
+        return ev("Cast", k + 1, t=t, form=r.choice(forms), fuse=self.fuse())
 
     def step(self):
         r = self.r
-        raw = [k for k in range(3) if not self.c[k]]
-        con = [k for k in range(3) if self.c[k]]
+        raw = [k for k in range(self.nk) if not self.c[k]]
+        con = [k for k in range(self.nk) if self.c[k]]
         out = []
         if raw and (not con or r.random() < 0.35):
             k = r.choice(raw)
@@ -72,10 +377,14 @@ class Gen:
                 if t < 0.08:
                     out.append(ev("DefaultConstruct", k + 1, fuse=f))
                 else:
-                    out.append(ev("Construct", k + 1, t=r.choice(TYPES), v=self.val(), form=r.choice(VALUE_FORMS), fuse=f))
+                    ty = self.typ()
+                    out.append(ev("Construct", k + 1, t=ty, v=val_for(r, ty), form=form_for(r, ty), fuse=f))
             else:
                 j = r.choice(con)
-                out.append(ev("CopyConstruct" if t < 0.78 else "MoveConstruct", k + 1, j=j + 1, fuse=f))
+                if t < 0.78:
+                    out.append(ev("CopyConstruct", k + 1, j=j + 1, fuse=f, nc=r.randrange(2)))
+                else:
+                    out.append(ev("MoveConstruct", k + 1, j=j + 1, fuse=f))
             if f and out[-1]["op"] in ("Construct", "CopyConstruct"):
                 out.append(ev("DestroyIf", k + 1))
             else:
@@ -86,11 +395,12 @@ class Gen:
         c = r.random()
         f = self.fuse()
         if c < 0.12:
-            return [ev("CopyAssign", k + 1, j=j + 1, fuse=f)]
+            return [ev("CopyAssign", k + 1, j=j + 1, fuse=f, nc=r.randrange(2))]
         if c < 0.22:
             return [ev("MoveAssign", k + 1, j=j + 1, fuse=f)]
         if c < 0.34:
-            return [ev("AssignValue", k + 1, t=r.choice(TYPES), v=self.val(), form=r.choice(VALUE_FORMS), fuse=f)]
+            ty = self.typ()
+            return [ev("AssignValue", k + 1, t=ty, v=val_for(r, ty), form=form_for(r, ty), fuse=f)]
         if c < 0.48:
             return [ev(r.choice(["Swap", "Swap", "StdSwap"]), k + 1, j=j + 1, fuse=f)]
         if c < 0.53:
@@ -101,22 +411,24 @@ class Gen:
         if c < 0.66:
             return [ev(r.choice(["HasValue", "Empty", "Type"]), k + 1, fuse=f)]
         if c < 0.90:
-            return [ev("Cast", k + 1, t=r.choice(TYPES + ["Int"]), form=r.choice(CAST_FORMS), fuse=f)]
-        return [ev("SetVia", k + 1, t=r.choice(TYPES), v=self.val(), fuse=0)]
+            return [self.cast(k)]
+        ty = self.typ()
+        return [ev("SetVia", k + 1, t=ty, v=val_for(r, ty), fuse=0)]
 
 
-def random_script(seed, nexec, nops):
-    rnd = random.Random(seed * 7919 + 13)
+def random_script(seed, nexec, nops, feats=(), noexc=False, salt=0):
+    rnd = random.Random(seed * 7919 + 13 + salt * 104729)
     lines = []
     for _ in range(nexec):
-        g = Gen(rnd)
+        nk = rnd.choice([3, 3, 4, 5])
+        g = Gen(rnd, nk, feats, noexc)
         lines.append(RESET)
         n = 0
         while n < nops:
             s = g.step()
             lines.extend(s)
             n += len(s)
-        for k in range(3):
+        for k in range(nk):
             lines.append(ev("DestroyIf", k + 1))
     return lines
 
@@ -125,7 +437,7 @@ def random_script(seed, nexec, nops):
 def emitted(out, rnd, limit):
     """Transitions written by the Emit action constraint of AnyImpl.tla.  Returns (sample, total, per-op counts);
     the sample is drawn uniformly (probability limit/total) so that memory stays bounded."""
-    lines = [l for l in out.splitlines() if l.startswith('"@E@')]
+    lines = sorted(l for l in out.splitlines() if l.startswith('"@E@'))       # TLC's workers print in no fixed order
     total = len(lines)
     keep = 1.0 if not limit or total <= limit else limit / float(total)
     res, per_op = [], {}
@@ -146,6 +458,10 @@ def op_counts(out):
     return c
 
 
+def vforms(rnd, t):
+    return rnd.choice(VALUE_FORMS + (["decay"] if t in ("CStr", "Fn") else []))
+
+
 def establish(k, vt, pv, rnd):
     """Calls that bring raw slot k (1-based) into representation state (vt, pv), through varying histories."""
     if vt == "raw":
@@ -154,26 +470,31 @@ def establish(k, vt, pv, rnd):
         c = rnd.random()
         if c < 0.5:
             return [ev("DefaultConstruct", k)]
+        t = rnd.choice(TYPES)
         if c < 0.8:
-            return [ev("Construct", k, t=rnd.choice(TYPES), v=9, form=rnd.choice(VALUE_FORMS)), ev(rnd.choice(["AReset", "AClear"]), k)]
-        return [ev("Construct", k, t=rnd.choice(TYPES), v=9, form="rv"), ev("MoveAssign", k, j=k), ev("AClear", k)]
+            return [ev("Construct", k, t=t, v=3, form=vforms(rnd, t)), ev(rnd.choice(["AReset", "AClear"]), k)]
+        return [ev("Construct", k, t=t, v=3, form="rv"), ev("MoveAssign", k, j=k), ev("AClear", k)]
     c = rnd.random()
     if c < 0.6:
-        return [ev("Construct", k, t=vt, v=pv, form=rnd.choice(VALUE_FORMS))]
+        return [ev("Construct", k, t=vt, v=pv, form=vforms(rnd, vt))]
     if c < 0.8:     # a different type first, then assignment from a value
-        return [ev("Construct", k, t=rnd.choice(TYPES), v=8, form=rnd.choice(VALUE_FORMS)),
-                ev("AssignValue", k, t=vt, v=pv, form=rnd.choice(VALUE_FORMS))]
+        t = rnd.choice(TYPES)
+        return [ev("Construct", k, t=t, v=3, form=vforms(rnd, t)),
+                ev("AssignValue", k, t=vt, v=pv, form=vforms(rnd, vt))]
     if c < 0.9:     # empty first
-        return [ev("DefaultConstruct", k), ev("AssignValue", k, t=vt, v=pv, form=rnd.choice(VALUE_FORMS))]
-    return [ev("Construct", k, t=vt, v=5, form="clv"), ev("SetVia", k, t=vt, v=pv)]
+        return [ev("DefaultConstruct", k), ev("AssignValue", k, t=vt, v=pv, form=vforms(rnd, vt))]
+    return [ev("Construct", k, t=vt, v=3, form="clv"), ev("SetVia", k, t=vt, v=pv)]
 
 
-def edge_scripts(edges, rnd):
+def edge_scripts(edges, rnd, feats):
     """One execution per source state: Reset, establish the state, then for each sampled transition out of it
     the call, followed by re-establishing the slots the call names.  Returns (lines, expectations) where
     expectations[i] is what AnyImpl predicted for script line i (None for set-up lines)."""
     by_src = {}
     for e in edges:
+        fm = e["l"]["a"].get("form")
+        if fm in OPEN_FORMS and OPEN_FORMS[fm] not in feats:
+            continue            # a call form this build of the library does not accept
         by_src.setdefault(json.dumps(e["p"], sort_keys=True), []).append(e)
     lines, exp, taken = [], [], 0
 
@@ -186,13 +507,18 @@ def edge_scripts(edges, rnd):
 
     for key in sorted(by_src):
         st = json.loads(key)
+        ks = range(1, len(st["vt"]) + 1)
         calls = by_src[key]
-        calls.sort(key=lambda c: (c["l"]["op"] not in PURE_OPS, rnd.random()))
+        calls.sort(key=lambda c: json.dumps(c["l"], sort_keys=True))
+        rnd.shuffle(calls)
+        calls.sort(key=lambda c: c["l"]["op"] not in PURE_OPS)
         put([RESET])
-        for k in (1, 2, 3):
+        for k in ks:
             put(establish(k, st["vt"][k - 1], st["pv"][k - 1], rnd))
         for c in calls:
-            call = {"op": c["l"]["op"], "k": c["l"]["k"], "a": c["l"]["a"]}
+            call = {"op": c["l"]["op"], "k": c["l"]["k"], "a": dict(c["l"]["a"])}
+            if call["op"] in ("CopyConstruct", "CopyAssign"):
+                call["a"]["nc"] = rnd.randrange(2)
             put([call], c["x"])
             taken += 1
             if call["op"] in PURE_OPS:
@@ -201,11 +527,11 @@ def edge_scripts(edges, rnd):
             put([ev("DestroyIf", k) for k in touched])
             for k in touched:
                 put(establish(k, st["vt"][k - 1], st["pv"][k - 1], rnd))
-        put([ev("DestroyIf", k) for k in (1, 2, 3)])
+        put([ev("DestroyIf", k) for k in ks])
     return lines, exp, taken
 
 
-def sim_scripts(simdir):
+def sim_scripts(simdir, feats=()):
     lines, exp, n = [], [], 0
     for fn in sorted(os.listdir(simdir)):
         states = tlaval.parse_sim_trace(os.path.join(simdir, fn))
@@ -214,6 +540,8 @@ def sim_scripts(simdir):
         lines.append(RESET); exp.append(None)
         for s in states[1:]:
             la = s["last"]
+            if la["a"].get("form") in OPEN_FORMS and OPEN_FORMS[la["a"]["form"]] not in feats:
+                continue        # a call form this build does not accept (a cast through a reference form changes nothing)
             lines.append({"op": la["op"], "k": la["k"], "a": la["a"]})
             exp.append({"shape": ["%s:%s:%s" % (e["e"], e["kind"], e["t"]) for e in la["ev"]], "exc": la["res"]["exc"], "inp": la["inp"]})
         for k in (1, 2, 3):
@@ -226,7 +554,7 @@ def sim_scripts(simdir):
 def write_script(path, lines):
     with open(path, "w") as f:
         for l in lines:
-            f.write(json.dumps(l, separators=(",", ":")) + "\n")
+            f.write((l if isinstance(l, str) else json.dumps(l, separators=(",", ":"))) + "\n")
 
 
 def chunk_by_reset(lines, exp, nchunks):
@@ -238,14 +566,111 @@ def chunk_by_reset(lines, exp, nchunks):
     return [(lines[a:b], exp[a:b]) for a, b in zip(cuts, cuts[1:] + [len(lines)])]
 
 
-def run_script(drv, script_path, trace_path):
+def build_flags(fl, feats):
+    spec = FLAVOURS[fl]
+    flags = list(spec["flags"]) + ['-DC06_FLAVOUR="%s"' % fl]
+    for ft in sorted(feats):
+        flags.append("-DC06_HAVE_%s=1" % ft)
+    return flags, spec.get("cxx")
+
+
+def build_driver(ctx, fl="std", feats=()):
+    drv = os.path.join(ctx.work, "any_driver_" + fl)
+    flags, cxx = build_flags(fl, feats)
+    core.build(ctx, os.path.join(core.HARNESS, "any", "driver.cpp"), drv, flags=flags, cxx=cxx)
+    return drv
+
+
+def tail_lines(path, n=3):
+    with open(path, "rb") as f:
+        f.seek(0, 2)
+        size = f.tell()
+        f.seek(max(0, size - 65536))
+        data = f.read().decode(errors="replace")
+    return [l for l in data.splitlines() if l.strip()][-n:]
+
+
+def ended_early(path):
+    """The process ended inside an execution: the last line is a Crash / CrashIn line or a call that ended in std::terminate."""
+    t = tail_lines(path, 1)
+    if not t:
+        return None
+    last = t[-1]
+    if last.startswith('{"op":"Crash"') or last.startswith('{"op":"CrashIn"'):
+        return "crash"
+    if '"res":{"exc":"terminate"' in last:
+        return "terminate"
+    return None
+
+
+HANG_BUDGET = [6]        # restarts after a call that did not return, per check run (each costs seconds of CPU)
+_LOCK = threading.Lock()
+
+
+def run_script(drv, lines, script_path, trace_path, max_restarts=25, call_cpu_s=None):
+    """Run the driver on the script.  When the process ends inside an execution (crash, sanitizer report, terminate, a call
+    that does not return) it is started again on the remaining executions.  Returns dict(rc, err, restarts, dropped, kinds)."""
     env = dict(os.environ); env.update(core.ASAN_ENV)
-    with open(script_path) as fin, open(trace_path, "w") as fout:
-        p = subprocess.run([drv], stdin=fin, stdout=fout, stderr=subprocess.PIPE, env=env, timeout=1800)
-    err = p.stderr.decode(errors="replace")
-    if p.returncode == 3:
-        raise MachineryError("harness rejected script %s: %s" % (script_path, err[-800:]))
-    return p.returncode, err
+    if call_cpu_s:
+        env["C06_CALL_CPU_S"] = str(call_cpu_s)
+    resets = [i for i, l in enumerate(lines) if (l.get("op") if isinstance(l, dict) else "") == "Reset"]
+    pos, restarts, kinds, errs, rc, dropped = 0, 0, [], [], 0, 0
+    open(trace_path, "w").close()
+    part = 0
+    while True:
+        sp = script_path if part == 0 else "%s.part%d" % (script_path, part)
+        tp = trace_path + ".run%d" % part
+        write_script(sp, lines[pos:])
+        early = None
+        with open(sp) as fin, open(tp, "w") as fout:
+            try:
+                p = subprocess.run([drv], stdin=fin, stdout=fout, stderr=subprocess.PIPE, env=env, timeout=1500)
+                rc, err = p.returncode, p.stderr.decode(errors="replace")
+            except subprocess.TimeoutExpired as x:
+                rc, err = 124, "[wall-clock timeout] " + (x.stderr or b"").decode(errors="replace")[-500:]
+                early = "timeout"
+        if early == "timeout":
+            with open(tp, "a") as f:
+                f.write('\n{"op":"Crash","why":"the driver did not finish within the wall-clock limit"}\n')
+        if rc == 3:
+            raise MachineryError("harness rejected script %s: %s" % (sp, err[-800:]))
+        early = early or ended_early(tp)
+        if not early and rc < 0:
+            # killed by a signal its handlers could not catch: the trace ends inside a call without a Crash line
+            with open(tp, "a") as f:
+                f.write('\n{"op":"Crash","why":"the driver was killed by signal %d inside the call after the last recorded one"}\n' % -rc)
+            early = "crash"
+        with open(tp) as f:
+            data = f.read()
+        if early == "crash" and ("hang: the call did not return" in data[-400:] or "wall-clock limit" in data[-400:]):
+            early = "hang"
+        with open(trace_path, "a") as f:
+            f.write(data if data.endswith("\n") or not data else data + "\n")
+        nres = sum(1 for l in data.splitlines() if l.startswith('{"op":"Reset"'))
+        os.remove(tp)
+        if not early:
+            break
+        kinds.append(early)
+        errs.append(err[-1500:])
+        # the execution that ended early is the nres-th one of this run; continue with the next
+        rest = [i for i in resets if i >= pos]
+        if nres >= len(rest):
+            break
+        if early == "hang":
+            with _LOCK:
+                HANG_BUDGET[0] -= 1
+                left = HANG_BUDGET[0]
+        if restarts >= max_restarts or (early == "hang" and left < 0):
+            dropped = len(rest) - nres
+            break
+        pos = rest[nres]
+        restarts += 1
+        part += 1
+    return {"rc": rc, "err": err, "restarts": restarts, "dropped": dropped, "kinds": kinds, "errs": errs}
+
+
+_RE_CAST = re.compile(r'^\{"op":"Cast","k":\d+,"a":\{([^}]*)\},"ev":\[[^\]]*\],"res":\{"exc":"none","null":false', re.M)
+_RE_KV = re.compile(r'"(t|form)":"(\w+)"')
 
 
 def calls_only(lines):
@@ -256,28 +681,29 @@ def calls_only(lines):
                 l = json.loads(l)
             except Exception:
                 continue
-        if "_meta" in l or l.get("op") in ("Crash", "CrashIn") or "k" not in l:
+        if "_meta" in l or l.get("op") in ("Crash", "CrashIn", "Desync") or "k" not in l:
             continue
-        out.append({"op": l["op"], "k": l["k"], "a": l["a"]})
+        if l["op"] == "Reset":
+            out.append(RESET)
+        else:
+            out.append({"op": l["op"], "k": l["k"], "a": l["a"]})
     return out
 
 
-DESYNC = "__desync__"
-
-
-def classify(findings, desyncs):
-    def f(evj, execution):
-        if evj.get("op") == "Desync":
-            # the first thing L1 could not accept in this execution is that the SCRIPT left the preconditions:
-            # not a statement about xtl (see run(): drift for model-generated walks, machinery error otherwise)
-            desyncs.append((evj, execution))
-            return DESYNC
-        for k in findings:
-            m = k.get("match", {})
-            if m and all(evj.get(x) == y or evj.get("a", {}).get(x) == y for x, y in m.items()):
-                return "%s (%s)" % (k["key"], k["what"])
-        return None
-    return f
+def report(ctx, text, replay_lines, flavour):
+    """Write a replay file that names the build and report the violation."""
+    import hashlib
+    os.makedirs(ctx.replays, exist_ok=True)
+    flags, cxx = build_flags(flavour, ctx.notes.get("_feats", {}).get(flavour, ()))
+    meta = {"property": ctx.pid, "what": text[:3000], "flavour": flavour, "flags": flags, "cxx": cxx or core.CXX,
+            "seed": ctx.seed, "tier": ctx.tier, "include": core.INCLUDE}
+    h = hashlib.sha1((text + json.dumps(replay_lines, sort_keys=True, default=str)).encode()).hexdigest()[:10]
+    path = os.path.join(ctx.replays, "v_%s.ndjson" % h)
+    with open(path, "w") as f:
+        f.write(json.dumps({"_meta": meta}) + "\n")
+        for l in replay_lines:
+            f.write((l if isinstance(l, str) else json.dumps(l, separators=(",", ":"))) + "\n")
+    return ctx.violation(text, replay_path=path)
 
 
 def compare_prediction(ctx, name, trace_path, exp):
@@ -288,7 +714,11 @@ def compare_prediction(ctx, name, trace_path, exp):
             if i >= len(exp):
                 break
             x = exp[i]
-            if x is None or not line.startswith("{"):
+            if not line.startswith("{"):
+                break
+            if x is None:
+                if line.startswith('{"op":"Crash') or line.startswith('{"op":"Desync'):
+                    break
                 continue
             try:
                 d = json.loads(line)
@@ -297,7 +727,7 @@ def compare_prediction(ctx, name, trace_path, exp):
             if d.get("op") in ("Crash", "CrashIn", "Desync"):
                 break       # lines after this no longer correspond to script lines
             shape = ["%s:%s:%s" % (e["e"], e["kind"], e["t"]) for e in d["ev"]]
-            inp = [s["inp"] for s in d["st"]]
+            inp = [s.get("inp", 0) for s in d["st"]][:len(x["inp"])]
             n += 1
             if shape != x["shape"] or d["res"]["exc"] != x["exc"] or inp != x["inp"]:
                 bad += 1
@@ -323,230 +753,567 @@ def counterexample_script(out):
     return calls
 
 
-def build_driver(ctx):
-    drv = os.path.join(ctx.work, "any_driver")
-    core.build(ctx, os.path.join(core.HARNESS, "any", "driver.cpp"), drv)
-    return drv
+# ------------------------------------------------------------------ validation
+def validate_once(ctx, path, cur):
+    """One TLC run (no explain) over trace file cur (path or a remainder of it).
+    Returns (events matched, rejection or None, remainder file or None, executions in the remainder)."""
+    r = core.validate_trace(ctx, TRACE_SPEC, TRACE_CFG, cur, explain=False, env=JENV)
+    if r["accepted"]:
+        return r["matched"], None, None, 0
+    with open(cur) as f:
+        lines = [l.rstrip("\n") for l in f if l.strip()]
+    idx = r["fail_line"]
+    if idx >= len(lines):
+        raise MachineryError("trace validation of %s stopped behind the last line (see %s)" % (cur, r["tlc"]["outfile"]))
+    rej = {"path": path, "execution": core.execution_of(lines, idx)}
+    nxt = idx + 1
+    while nxt < len(lines) and not lines[nxt].startswith('{"op":"Reset"'):
+        nxt += 1
+    if nxt >= len(lines):
+        return r["matched"], rej, None, 0
+    m = re.search(r"\.rest(\d+)$", cur)
+    rest = "%s.rest%d" % (path, int(m.group(1)) + 1 if m else 1)
+    with open(rest, "w") as f:
+        f.write("\n".join(lines[nxt:]) + "\n")
+    return r["matched"], rej, rest, sum(1 for l in lines[nxt:] if l.startswith('{"op":"Reset"'))
 
 
+def validate_file(ctx, path, max_restarts):
+    """Validate one trace file completely (used for re-runs): a rejected execution is cut out and validation continues behind it."""
+    matched, rejections, cur, given_up = 0, [], path, 0
+    for attempt in range(max_restarts + 1):
+        m, rej, rest, nrest = validate_once(ctx, path, cur)
+        matched += m
+        if rej is None:
+            break
+        rejections.append(rej)
+        if rest is None:
+            break
+        if attempt == max_restarts:
+            given_up = nrest
+            break
+        cur = rest
+    return matched, rejections, given_up
+
+
+def validate_rounds(ctx, jobs, max_restarts, enough):
+    """All trace files, in rounds: round n validates what is left of every file behind its n-th rejected execution.  When a defect
+    is pervasive the first round already yields one rejection per file; as soon as `enough` rejections are in hand the rest is
+    left unvalidated (counted), so that the run ends in time.  Returns [(matched, rejections, executions given up)] per job."""
+    state = [{"cur": j["trace"], "matched": 0, "rej": [], "left": 0, "done": False} for j in jobs]
+    for rnd_no in range(max_restarts + 1):
+        todo = [i for i, st in enumerate(state) if not st["done"]]
+        if not todo:
+            break
+        with ThreadPoolExecutor(max_workers=max(1, NW)) as ex:
+            res = list(ex.map(lambda i: validate_once(ctx, jobs[i]["trace"], state[i]["cur"]), todo))
+        for i, (m, rej, rest, nrest) in zip(todo, res):
+            st = state[i]
+            st["matched"] += m
+            if rej is not None:
+                st["rej"].append(rej)
+            if rej is None or rest is None:
+                st["done"], st["left"] = True, 0
+            else:
+                st["cur"], st["left"] = rest, nrest
+        if sum(len(st["rej"]) for st in state) >= enough:
+            break
+    return [(st["matched"], st["rej"], 0 if st["done"] else st["left"]) for st in state]
+
+
+PARTS = ["precondition", "lifetime_events_ok", "no_leak_no_dangling_independent", "postcondition", "observers_consistent"]
+
+
+def failing_part(expected):
+    if not expected:
+        return "?"
+    if "the call returns" in expected:
+        return "crash"
+    if "stays inside the preconditions" in expected:
+        return "desync"
+    for p in PARTS:
+        if re.search(p + r" \|-> FALSE", expected):
+            return p
+    return "?"
+
+
+def known_key(findings, evj):
+    for k in findings:
+        m = k.get("match", {})
+        if m and all(evj.get(x) == y or evj.get("a", {}).get(x) == y for x, y in m.items()):
+            return "%s (%s)" % (k["key"], k["what"])
+    return None
+
+
+def confirm(ctx, drivers, flavour, calls, tag):
+    """DESIGN 4.2: a rejection is reported only if it repeats.  Run the calls again on the same build, validate with explain."""
+    d = ctx.sub("recheck")
+    sp, tp = os.path.join(d, tag + ".script"), os.path.join(d, tag + ".ndjson")
+    run_script(drivers[flavour], calls, sp, tp, max_restarts=0)
+    return core.validate_trace(ctx, TRACE_SPEC, TRACE_CFG, tp, explain=True, env=JENV), tp
+
+
+def confirm_in_context(ctx, drivers, job, tag):
+    """Second attempt at repeating a rejection: the whole script of the job again (same build, same process history)."""
+    d = ctx.sub("recheck")
+    sp, tp = os.path.join(d, tag + ".script"), os.path.join(d, tag + ".ndjson")
+    run_script(drivers[job["flavour"]], job["lines"], sp, tp)
+    matched, rejections, _ = validate_file(ctx, tp, 0)
+    if not rejections:
+        return None, None, None
+    calls = calls_only(rejections[0]["execution"])
+    # explain on the rejected execution as recorded in this second run
+    xp = os.path.join(d, tag + ".x.ndjson")
+    with open(xp, "w") as f:
+        f.write("\n".join(rejections[0]["execution"]) + "\n")
+    r = core.validate_trace(ctx, TRACE_SPEC, TRACE_CFG, xp, explain=True, env=JENV)
+    if r["accepted"]:       # cannot happen: the same lines were just rejected
+        return None, None, None
+    return r, xp, calls
+
+
+def validate_all(ctx, drivers, jobs, findings):
+    """jobs: [dict(name, flavour, trace, model (script generated from AnyImpl))]."""
+    mr = MAX_RESTARTS_VALIDATE
+    results = validate_rounds(ctx, jobs, mr, enough=2 * MAX_CONFIRM)
+    cands, desyncs, given_up, nrej = [], [], 0, 0
+    for job, (matched, rejections, gu) in zip(jobs, results):
+        ctx.cov["events_validated"] += matched
+        given_up += gu
+        for rj in rejections:
+            nrej += 1
+            bad = rj["execution"][-1]
+            try:
+                evj = json.loads(bad)
+            except Exception:
+                evj = {"op": "?"}
+            rj["job"], rj["evj"] = job, evj
+            if evj.get("op") == "Desync":
+                desyncs.append(rj)
+                continue
+            key = known_key(findings, evj)
+            if key:
+                if key not in ctx.known:
+                    ctx.known.append(key)
+                continue
+            cands.append(rj)
+    # distinct kinds first: by operation (and cast form) of the rejected line
+    def key0(rj):
+        e = rj["evj"]
+        if e.get("op") in ("Crash", "CrashIn"):
+            c = e.get("call") or {}
+            return ("Crash", c.get("op"), (c.get("a") or {}).get("form"))
+        return (e.get("op"), (e.get("a") or {}).get("form") if e.get("op") == "Cast" else None)
+    order, seen0 = [], set()
+    for rj in cands:
+        if key0(rj) not in seen0:
+            seen0.add(key0(rj))
+            order.append(rj)
+    order += [rj for rj in cands if rj not in order]
+    reported, nconf, nonrepro = set(), 0, []
+    for n, rj in enumerate(order):
+        if len(reported) >= MAX_REPORTED or nconf >= MAX_CONFIRM:
+            break
+        job = rj["job"]
+        calls = calls_only(rj["execution"])
+        again, tp = confirm(ctx, drivers, job["flavour"], calls, "c%d" % n)
+        nconf += 1
+        if again["accepted"]:
+            # the execution alone is accepted: it may need the process history of its script (heap state, earlier executions)
+            again, tp, calls = confirm_in_context(ctx, drivers, job, "c%dw" % n)
+            if again is None:
+                nonrepro.append("non-reproducible rejection in %s (accepted when the calls were run again on build '%s', alone and after the "
+                                "script's earlier executions): %s" % (os.path.basename(rj["path"]), job["flavour"], rj["execution"][-1][:400]))
+                continue
+        with open(tp) as f:
+            tl = [l.rstrip("\n") for l in f if l.strip()]
+        bad = tl[again["fail_line"]] if again["fail_line"] < len(tl) else rj["execution"][-1]
+        try:
+            bj = json.loads(bad)
+        except Exception:
+            bj = {"op": "?"}
+        part = failing_part(again.get("expected"))
+        if part == "desync":
+            desyncs.append(rj)
+            continue
+        k = (bj.get("op"), part)
+        if k in reported:
+            continue
+        reported.add(k)
+        text = "trace rejected by Any.tla (L1) at event %d of an execution of %s (build '%s'); failing part: %s; event: %s ; spec: %s" % (
+            again["fail_line"] + 1, job["name"], job["flavour"], part, bad[:900], (again.get("expected") or "?")[:1400])
+        report(ctx, text, calls, job["flavour"])
+    if nonrepro:
+        if not ctx.violations:
+            raise MachineryError(nonrepro[0])
+        ctx.notes["non_reproducible_rejections_beside_confirmed_violations"] = nonrepro[:3]
+    ctx.notes["rejected_executions"] = nrej
+    ctx.notes["rejections_confirmed_by_re_execution"] = nconf
+    if nrej:
+        ctx.notes["rejected_executions_not_replayed"] = max(0, len(cands) - nconf)
+    if given_up:
+        ctx.notes["executions_left_unvalidated_once_enough_rejections_were_in_hand"] = given_up
+    if cands:
+        ctx.log("%d rejected executions (%d distinct kinds reported, %d confirmed by re-execution, %d executions not validated)" % (
+            nrej, len(reported), nconf, given_up))
+    # a Desync that is the FIRST thing L1 cannot accept in its execution: everything the library did before was accepted
+    for rj in desyncs:
+        name = rj["job"]["name"]
+        if rj["job"].get("model"):
+            # a walk generated from AnyImpl assumed an outcome (an object was / was not constructed) the code did not
+            # produce, although everything the code did up to there is accepted by L1: the model is out of date
+            if len(ctx.drift) < 8:
+                ctx.drift.append("a call sequence generated from AnyImpl.tla left the preconditions on the real code (%s): %s" % (
+                    name, rj["execution"][-1][:400]))
+        elif ctx.violations:
+            ctx.notes.setdefault("scripts_that_lost_track_after_accepted_calls", []).append(name)
+        else:
+            raise MachineryError("script %s left the C++ preconditions by itself: %s" % (name, rj["execution"][-1][:400]))
+    return results
+
+
+# ------------------------------------------------------------------ replay / selftest
 def replay(ctx, path):
-    """./verif replay C06 <file>: re-run the recorded calls on the current tree and validate against L1."""
-    lines = calls_only(core.read_ndjson(path))
-    drv = build_driver(ctx)
+    """./verif replay C06 <file>: re-run the recorded calls on the current tree (same build flavour) and validate against L1."""
+    raw = core.read_ndjson(path)
+    meta = next((l["_meta"] for l in raw if "_meta" in l), {})
+    fl = meta.get("flavour", "std")
+    if fl not in FLAVOURS:
+        raise MachineryError("replay file names an unknown build flavour %r" % fl)
+    rows = [l for l in raw if "typerow" in l]
+    if rows:
+        bad_any = False
+        for n, l in enumerate(rows):
+            cases = [(0, l["typerow"], l["base"], row_lines(l["typerow"], l["base"], 0))]
+            bad = compile_table(ctx, cases, "replay%d" % n, FLAVOURS[fl]["flags"], FLAVOURS[fl].get("cxx"))
+            if bad:
+                bad_any = True
+                print("VIOLATION property=C06 replay=%s" % path)
+                print("  build '%s', U = %s: %s still fails: %s" % (fl, l["base"], row_text(l["typerow"], l["base"]), bad[0]))
+        if not bad_any:
+            print("replay accepted: the recorded rows now compile")
+        return 1 if bad_any else 0
+    ctx.notes["_feats"] = feats = run_probes(ctx, [fl])
+    lines = calls_only(raw)
+    drv = build_driver(ctx, fl, feats[fl])
     sp, tp = os.path.join(ctx.work, "replay.script"), os.path.join(ctx.work, "replay.ndjson")
-    write_script(sp, lines)
-    rc, err = run_script(drv, sp, tp)
+    rr = run_script(drv, lines, sp, tp, max_restarts=5)
     r = core.validate_trace(ctx, TRACE_SPEC, TRACE_CFG, tp)
-    if r["accepted"] and rc == 0:
-        print("replay accepted: the recorded calls now conform to Any.tla")
+    if r["accepted"] and rr["rc"] == 0:
+        print("replay accepted: the recorded calls now conform to Any.tla (build '%s')" % fl)
         return 0
     print("VIOLATION property=C06 replay=%s" % path)
     if not r["accepted"]:
-        print("  rejected at event %d; %s" % (r["fail_line"] + 1, r.get("expected")))
+        with open(tp) as f:
+            tl = [l.rstrip("\n") for l in f if l.strip()]
+        print("  build '%s': rejected at event %d: %s\n  spec: %s" % (fl, r["fail_line"] + 1, tl[r["fail_line"]][:600] if r["fail_line"] < len(tl) else "?", r.get("expected")))
     else:
-        print("  harness exit status %d: %s" % (rc, err[-1500:]))
+        print("  harness exit status %d: %s" % (rr["rc"], rr["err"][-1500:]))
     return 1
 
 
 def selftest(ctx):
     """./verif selftest C06: the trace spec is bound to the log - a corrupted field and a removed line are rejected
     exactly where they are."""
-    drv = build_driver(ctx)
+    ctx.notes["_feats"] = feats = run_probes(ctx, ["std"])
+    drv = build_driver(ctx, "std", feats["std"])
     lines = random_script(ctx.seed, 6, 40)
     sp, tp = os.path.join(ctx.work, "st.script"), os.path.join(ctx.work, "st.ndjson")
-    write_script(sp, lines)
-    run_script(drv, sp, tp)
+    run_script(drv, lines, sp, tp)
     r = core.validate_trace(ctx, TRACE_SPEC, TRACE_CFG, tp)
     print("clean trace: accepted=%s (%d lines)" % (r["accepted"], r["total"]))
     ok = r["accepted"]
     with open(tp) as f:
         tl = [l.rstrip("\n") for l in f]
-    # (a) corrupt the value the observers report, on a line in the middle where some object has a value
-    idx = next(i for i in range(len(tl) // 2, len(tl)) if '"has":true' in tl[i])
-    d = json.loads(tl[idx])
-    s = next(x for x in d["st"] if x["has"])
-    s["v"] += 1
-    bad = tl[:idx] + [json.dumps(d, separators=(",", ":"))] + tl[idx + 1:]
-    p2 = os.path.join(ctx.work, "st-corrupt.ndjson")
-    open(p2, "w").write("\n".join(bad) + "\n")
-    r2 = core.validate_trace(ctx, TRACE_SPEC, TRACE_CFG, p2)
-    print("corrupted st.v at line %d: accepted=%s rejected at line %s" % (idx + 1, r2["accepted"], r2.get("fail_line", -1) + 1))
-    ok = ok and not r2["accepted"] and r2["fail_line"] == idx
-    # (b) corrupt an element event: the source of a copy
-    idx = next(i for i in range(len(tl) // 3, len(tl))
-               if any(x["kind"] == "copy" and x["e"] == "ctor" for x in json.loads(tl[i]).get("ev", [])))
-    d = json.loads(tl[idx])
-    e = next(x for x in d["ev"] if x["kind"] == "copy" and x["e"] == "ctor")
-    e["src"] += 1000
-    bad = tl[:idx] + [json.dumps(d, separators=(",", ":"))] + tl[idx + 1:]
-    p3 = os.path.join(ctx.work, "st-corrupt-ev.ndjson")
-    open(p3, "w").write("\n".join(bad) + "\n")
-    r3 = core.validate_trace(ctx, TRACE_SPEC, TRACE_CFG, p3)
-    print("corrupted ev.src at line %d: accepted=%s rejected at line %s" % (idx + 1, r3["accepted"], r3.get("fail_line", -1) + 1))
-    ok = ok and not r3["accepted"] and r3["fail_line"] == idx
-    # (c) remove a line that constructed an object: the next line that shows the object is rejected
-    idx = next(i for i in range(len(tl) // 2, len(tl)) if tl[i].startswith('{"op":"Construct"') and '"exc":"none"' in tl[i])
-    p4 = os.path.join(ctx.work, "st-removed.ndjson")
-    open(p4, "w").write("\n".join(tl[:idx] + tl[idx + 1:]) + "\n")
-    r4 = core.validate_trace(ctx, TRACE_SPEC, TRACE_CFG, p4)
-    print("removed line %d: accepted=%s rejected at line %s" % (idx + 1, r4["accepted"], r4.get("fail_line", -1) + 1))
-    ok = ok and not r4["accepted"] and r4["fail_line"] == idx
+
+    def variant(name, pick, edit):
+        idx = next(i for i in range(len(tl) // 3, len(tl)) if pick(tl[i]))
+        d = json.loads(tl[idx])
+        if edit(d) == "delete":
+            out = tl[:idx] + tl[idx + 1:]
+        else:
+            out = tl[:idx] + [json.dumps(d, separators=(",", ":"))] + tl[idx + 1:]
+        p = os.path.join(ctx.work, "st-%s.ndjson" % name)
+        open(p, "w").write("\n".join(out) + "\n")
+        rr = core.validate_trace(ctx, TRACE_SPEC, TRACE_CFG, p)
+        print("%s at line %d: accepted=%s rejected at line %s" % (name, idx + 1, rr["accepted"], rr.get("fail_line", -1) + 1))
+        return not rr["accepted"] and rr["fail_line"] == idx
+
+    def e_val(d):
+        s = next(x for x in d["st"] if x.get("has"))
+        s["v"] += 1
+
+    def e_src(d):
+        e = next(x for x in d["ev"] if x["kind"] == "copy" and x["e"] == "ctor")
+        e["src"] += 1000
+
+    def e_spc(d):
+        d["spc"][0]["n"] += 1
+
+    def e_hits(d):
+        s = next(x for x in d["st"] if x.get("has"))
+        s["hits"].append("Int" if s["ty"] != "Int" else "Str")
+
+    ok &= variant("corrupted-st.v", lambda l: '"has":true' in l, e_val)
+    ok &= variant("corrupted-ev.src", lambda l: any(x["kind"] == "copy" and x["e"] == "ctor" for x in json.loads(l).get("ev", [])), e_src)
+    ok &= variant("corrupted-owner-count", lambda l: '"spc":[{' in l, e_spc)
+    ok &= variant("second-any_cast-hit", lambda l: '"has":true' in l, e_hits)
+    ok &= variant("removed-line", lambda l: l.startswith('{"op":"Construct"') and '"exc":"none"' in l, lambda d: "delete")
     print("selftest %s" % ("ok" if ok else "FAILED"))
     return 0 if ok else 2
 
 
+# ------------------------------------------------------------------ the check
 def run(ctx):
     q = ctx.quick
     findings = core.load_findings("C06")
     rnd = random.Random(ctx.seed)
+    flavours = QUICK_FLAVOURS if q else ALL_FLAVOURS
 
-    # ---- 1., 2., 3b. and the harness build run side by side (each TLC run is given part of the machine)
+    # ---- 0. compile-time table and probes: BEFORE the driver is built
+    run_types(ctx, ["std", "mov"] if q else ["std", "mov", "fast", "noexc", "clang"])
+    type_violations = len(ctx.violations)
+    try:
+        feats = run_probes(ctx, flavours)
+    except MachineryError:
+        if type_violations:
+            return finish(ctx, q, {}, 0, 0, 0)
+        raise
+    ctx.notes["_feats"] = feats
+
+    # ---- 1., 2., 3b. and the harness builds run side by side (each TLC run is given part of the machine)
     simdir = ctx.sub("sim")
     nsim = 60 if q else 1500
-    w = max(2, NW // 2)
-    with ThreadPoolExecutor(max_workers=4) as pool:
-        # 1. L1 model checking through the liberal generator
-        f1 = pool.submit(core.tlc_model_check, ctx, "AnyMC", "Any_mc.cfg" if q else "Any_mc_thorough.cfg",
-                         "L1: every outcome the standard allows; lifetimes balance, strong guarantee, observers pure",
-                         workers=w)
-        # 2. L2 => L1 refinement (also writes the transitions for S->C)
-        f2 = pool.submit(core.tlc_model_check, ctx, "AnyImpl", "AnyImpl_mc.cfg" if q else "AnyImpl_mc_thorough.cfg",
-                         "L2 (transcription of xany.hpp) refines L1: every representation state x call x argument x fuse",
-                         heap="8g", timeout=1500, workers=NW)
-        # 3b. TLC simulation walks of AnyImpl (long histories)
-        f3 = pool.submit(core.tlc, ctx, "AnyImpl", "AnyImpl_sim.cfg", name="s2c-simulate",
-                         simulate="file=%s/t,num=%d" % (simdir, nsim),
-                         extra=["-depth", "40", "-seed", str(ctx.seed)], workers=2, timeout=900)
-        f4 = pool.submit(build_driver, ctx)
-        r, r2, _, drv = f1.result(), f2.result(), f3.result(), f4.result()
+    pool = ThreadPoolExecutor(max_workers=12)
+    w4 = max(1, NW // 4)
+    # 1. L1 model checking through the liberal generator
+    f1 = [pool.submit(model_check, ctx, "AnyMC", cfg,
+                      "L1 (%s): every outcome the standard allows; lifetimes balance, strong guarantee, observers pure and in agreement" % what,
+                      workers=w, timeout=3000, heap="6g")
+          for cfg, what, w in ([("Any_mc.cfg", "instrumented payloads", w4), ("Any_mc_b.cfg", "payloads without events", w4)] if q else
+                               [("Any_mc_thorough.cfg", "instrumented payloads", max(2, NW // 4)),
+                                ("Any_mc_b_thorough.cfg", "payloads without events", max(2, NW // 4)),
+                                ("Any_mc_4.cfg", "four any objects", max(2, NW // 4))])]
+    # 2. L2 => L1 refinement (also writes the transitions for S->C)
+    f2 = [pool.submit(model_check, ctx, "AnyImpl", cfg,
+                      "L2 (transcription of xany.hpp, %s) refines L1: every representation state x call x argument x fuse" % what,
+                      heap="8g", timeout=3000, workers=w)
+          for cfg, what, w in ([("AnyImpl_mc.cfg", "instrumented payloads", max(2, NW // 2)), ("AnyImpl_mc_b.cfg", "payloads without events", w4)] if q else
+                               [("AnyImpl_mc_thorough.cfg", "instrumented payloads", max(2, NW // 2)),
+                                ("AnyImpl_mc_b_thorough.cfg", "payloads without events", max(2, NW // 2))])]
+    # 3b. TLC simulation walks of AnyImpl (long histories)
+    f3 = pool.submit(core.tlc, ctx, "AnyImpl", "AnyImpl_sim.cfg", name="s2c-simulate",
+                     simulate="file=%s/t,num=%d" % (simdir, nsim),
+                     extra=["-depth", "40", "-seed", str(ctx.seed)], workers=2, timeout=1500)
+    fb = {fl: pool.submit(build_driver, ctx, fl, feats[fl]) for fl in flavours}
 
-    if r["violated"] or r["rc"] != 0:
-        raise MachineryError("L1 spec Any.tla violates its own theorem / rejects its generator (%s): oracle bug, see %s" % (r["violated"], r["outfile"]))
+    drivers, build_errors = {}, {}
+    for fl in flavours:
+        try:
+            drivers[fl] = fb[fl].result()
+        except MachineryError as x:
+            build_errors[fl] = str(x)
+    if build_errors:
+        for f in f1 + f2 + [f3]:
+            try:
+                f.result()
+            except Exception:
+                pass
+        pool.shutdown()
+        if ctx.violations:
+            # the compile-time table already shows what is wrong with this tree; the driver needs exactly those calls
+            ctx.notes["driver_builds_failed"] = {k: v[-600:] for k, v in build_errors.items()}
+            ctx.log("driver does not build for %s: reporting the %d compile-time violations" % (sorted(build_errors), len(ctx.violations)))
+            return finish(ctx, q, {}, 0, 0, 0)
+        raise MachineryError("harness does not compile (build %s) although every demanded row of the type table does:\n%s" % (
+            sorted(build_errors)[0], build_errors[sorted(build_errors)[0]][-5000:]))
+
+    tdir = ctx.sub("traces")
+    jobs = []            # dict(name, flavour, lines, exp, model)
+
+    def add(name, fl, lines, exp=None, model=False):
+        jobs.append({"name": name, "flavour": fl, "lines": lines, "exp": exp, "model": model,
+                     "script": os.path.join(tdir, name + ".script"), "trace": os.path.join(tdir, name + ".ndjson")})
+
+    # ---- 4. C->S: random scripts (they do not depend on TLC: executed while TLC is still running)
+    nops = 45 if q else 50
+    plan = [("std", 120 if q else 3000, 3 if q else 12), ("fast", 40 if q else 800, 1 if q else 3), ("mov", 40 if q else 800, 1 if q else 3),
+            ("noexc", 30 if q else 150, 1 if q else 2)]
     if not q:
-        oc = op_counts(r["out"])
+        plan += [("clang", 1200, 4), ("O0", 600, 2), ("O2", 1200, 4)]
+    nexec_rnd = 0
+    for salt, (fl, nexec, nch) in enumerate(plan):
+        lines = random_script(ctx.seed, nexec, nops, feats[fl], noexc=(fl == "noexc"), salt=salt)
+        nexec_rnd += nexec
+        for i, (ch, _) in enumerate(chunk_by_reset(lines, [None] * len(lines), nch)):
+            add("rnd-%s-%02d" % (fl, i), fl, ch)
+    for fnd in findings:
+        if "probe" in fnd:
+            add("probe-" + fnd["id"], "std", fnd["probe"]["script"])
+
+    def execute(job):
+        job["run"] = run_script(drivers[job["flavour"]], job["lines"], job["script"], job["trace"],
+                                max_restarts=(len(job["lines"]) if job["flavour"] == "noexc" else 25))
+        return job
+
+    hpool = ThreadPoolExecutor(max_workers=max(2, NW // 2))
+    fut_rnd = [hpool.submit(execute, j) for j in jobs]
+    n_rnd_jobs = len(jobs)
+
+    r1s, r2s = [f.result() for f in f1], [f.result() for f in f2]
+    f3.result()
+    for r in r1s:
+        if r["violated"] or r["rc"] != 0:
+            raise MachineryError("L1 spec Any.tla violates its own theorem / rejects its generator (%s): oracle bug, see %s" % (r["violated"], r["outfile"]))
+    if not q:
+        oc = {}
+        for r in r1s:
+            for k, v in op_counts(r["out"]).items():
+                oc[k] = oc.get(k, 0) + v
         ctx.notes["l1_transitions_per_operation_and_outcome"] = oc
-        ctx.notes["l1_vacuous_operations"] = sorted(o for o in ALL_OPS if not any(k.startswith(o + ":") for k in oc))
-    r["out"] = ""
+        ctx.notes["l1_vacuous_operations"] = sorted(o for o in ALL_OPS if not any(k.startswith(o + ":") for k in oc)) + \
+            sorted(o + ":u" for o in ALL_OPS if o not in ("DefaultConstruct", "Construct", "CopyConstruct", "MoveConstruct", "DestroyIf")
+                   and not any(k.startswith(o + ":") and k.endswith(":u") for k in oc))
+    for r in r1s:
+        r["out"] = ""
 
-    edges, n_emitted, per_op = emitted(r2["out"], rnd, 9000 if q else 110000)
-    r2["out"] = r2["out"][-4000:] if not r2["violated"] else "\n".join(l for l in r2["out"].splitlines() if not l.startswith('"@E@'))
-    cex = []
-    if r2["violated"] or r2["rc"] != 0:
-        cex = counterexample_script(r2["out"])
-        ctx.notes["l2_refinement"] = "failed"
-    else:
-        ctx.notes["l2_refinement"] = "holds"
+    cex, taken_all, n_emitted_all, per_op_all, l2_failed = [], 0, 0, {}, []
+    limits = ([9000, 3000] if q else [80000, 30000])
+    for r2, limit, tag in zip(r2s, limits, ("a", "b")):
+        edges, n_emitted, per_op = emitted(r2["out"], rnd, limit)
+        r2["out"] = r2["out"][-4000:] if not r2["violated"] else "\n".join(l for l in r2["out"].splitlines() if not l.startswith('"@E@'))
+        if r2["violated"] or r2["rc"] != 0:
+            c = counterexample_script(r2["out"])
+            l2_failed.append((r2, c))
+            if c:
+                add("l2-counterexample-" + tag, "std", [RESET] + c, model=True)
+        for k, v in per_op.items():
+            per_op_all[k] = per_op_all.get(k, 0) + v
+        n_emitted_all += n_emitted
+        # ---- 3. S->C: transitions of the L2 exploration, on the default build (predictions compared) ...
+        lines, exp, taken = edge_scripts(edges, rnd, feats["std"])
+        taken_all += taken
+        for i, (ch, ex) in enumerate(chunk_by_reset(lines, exp, (6 if tag == "a" else 2) if q else (12 if tag == "a" else 6))):
+            add("s2c-%s-%02d" % (tag, i), "std", ch, ex, model=False)
+        # ... and a sample of them on the other builds
+        for fl in flavours:
+            if fl in ("std", "noexc"):
+                continue
+            sub = [e for e in edges if rnd.random() < (0.12 if q else 0.15)]
+            lines, exp, taken = edge_scripts(sub, rnd, feats[fl])
+            taken_all += taken
+            add("s2c-%s-%s" % (tag, fl), fl, lines, None)
+    ctx.notes["l2_refinement"] = "failed" if l2_failed else "holds"
     if not q:
-        ctx.notes["l2_transitions_per_operation"] = per_op
-        ctx.notes["l2_vacuous_operations"] = sorted(o for o in ALL_OPS if o not in per_op)
-        ru = core.tlc(ctx, "AnyImpl", "AnyImpl_unfixed.cfg", name="AnyImpl-without-self-swap-guard", timeout=600)
+        ctx.notes["l2_transitions_per_operation"] = per_op_all
+        ctx.notes["l2_vacuous_operations"] = sorted(o for o in ALL_OPS if o not in per_op_all)
+        ru = core.tlc(ctx, "AnyImpl", "AnyImpl_unfixed.cfg", name="AnyImpl-without-self-swap-guard", timeout=900)
         ctx.notes["l2_model_of_header_before_fix_C06_01"] = (
             "refinement violated as expected (Swap(k,k) on an in-place payload): %s" % ru["violated"] if ru["violated"]
             else "NOT violated - the model no longer shows defect C06-01")
-
-    scripts = []     # (name, lines, expectations or None)
-
-    # ---- 3. S->C: transitions of the L2 exploration
-    lines, exp, taken = edge_scripts(edges, rnd)
-    ctx.log("S->C: %d L2 transitions written by TLC, %d replayed (%d script calls)" % (n_emitted, taken, len(lines)))
-    ctx.notes["s2c_transitions_enumerated"] = n_emitted
-    ctx.notes["s2c_transitions_replayed"] = taken
-    for i, (ch, ex) in enumerate(chunk_by_reset(lines, exp, 8 if q else 16)):
-        scripts.append(("s2c-%02d" % i, ch, ex))
-    if cex:
-        scripts.append(("l2-counterexample", [RESET] + cex, None))
+    ctx.log("S->C: %d L2 transitions written by TLC, %d replayed" % (n_emitted_all, taken_all))
+    ctx.notes["s2c_transitions_enumerated"] = n_emitted_all
+    ctx.notes["s2c_transitions_replayed"] = taken_all
 
     # ---- 3b. the simulation walks
-    lines, exp, nwalks = sim_scripts(simdir)
+    lines, exp, nwalks = sim_scripts(simdir, feats["std"])
     ctx.notes["s2c_simulation_walks"] = nwalks
     for i, (ch, ex) in enumerate(chunk_by_reset(lines, exp, 1 if q else 4)):
-        scripts.append(("sim-%d" % i, ch, ex))
+        add("sim-%d" % i, "std", ch, ex, model=True)
 
-    # ---- 4. C->S: random scripts
-    nexec, nops = (120, 45) if q else (8000, 50)
-    lines = random_script(ctx.seed, nexec, nops)
-    for i, (ch, ex) in enumerate(chunk_by_reset(lines, [None] * len(lines), 4 if q else 16)):
-        scripts.append(("rnd-%02d" % i, ch, None))
+    # ---- run the harness on the model-generated scripts
+    fut_s2c = [hpool.submit(execute, j) for j in jobs[n_rnd_jobs:]]
+    for f in fut_rnd + fut_s2c:
+        f.result()
+    hpool.shutdown()
+    pool.shutdown()
 
-    # ---- probes for open known findings
-    for fnd in findings:
-        if "probe" in fnd:
-            scripts.append(("probe-" + fnd["id"], fnd["probe"]["script"], None))
-
-    # ---- run the harness
-    tdir = ctx.sub("traces")
-    jobs = []
-    for name, lines, exp in scripts:
-        sp, tp = os.path.join(tdir, name + ".script"), os.path.join(tdir, name + ".ndjson")
-        write_script(sp, lines)
-        jobs.append((name, sp, tp, lines, exp))
-    with ThreadPoolExecutor(max_workers=max(2, NW // 2)) as ex:
-        rcs = list(ex.map(lambda j: run_script(drv, j[1], j[2]), jobs))
-    traces, ncalls, npred, nthrow = [], 0, 0, 0
-    for (name, sp, tp, lines, exp), (rc, err) in zip(jobs, rcs):
-        traces.append(tp)
+    ncalls, npred, nthrow, restarts, dropped, kinds, nleak, cast_hits = 0, 0, 0, 0, 0, {}, 0, {}
+    for job in jobs:
+        rr, lines, tp = job["run"], job["lines"], job["trace"]
         ncalls += sum(1 for l in lines if l["op"] != "Reset")
         ctx.cov["traces_validated_against_impl"] += sum(1 for l in lines if l["op"] == "Reset")
+        restarts += rr["restarts"]
+        dropped += rr["dropped"]
+        for k in rr["kinds"]:
+            kinds[k] = kinds.get(k, 0) + 1
         with open(tp) as f:
             txt = f.read()
         nthrow += txt.count('"exc":"fuse"')
-        crashed = '"op":"Crash"' in txt
-        if rc != 0 and not crashed:
+        for m in _RE_CAST.finditer(txt):           # successful casts by stored type and call form (vacuity evidence)
+            am = dict(_RE_KV.findall(m.group(1)))
+            if "t" in am and "form" in am:
+                key = am["t"] + ":" + am["form"]
+                cast_hits[key] = cast_hits.get(key, 0) + 1
+        txt = ""
+        if rr["rc"] != 0 and not rr["kinds"]:
             # complete trace but the process failed at exit: LeakSanitizer (memory never freed)
-            rc2, err2 = run_script(drv, sp, tp + ".again")
-            if rc2 != 0:
-                ctx.violation("harness exit status %d after a complete run of %s (LeakSanitizer / sanitizer report at exit): %s" % (
-                    rc, name, err[-1500:]), replay_lines=lines)
+            r2 = run_script(drivers[job["flavour"]], lines, job["script"] + ".again", tp + ".again", max_restarts=0)
+            if r2["rc"] != 0:
+                nleak += 1
+                if nleak == 1:          # one report; the other scripts that end this way are counted
+                    report(ctx, "harness exit status %d after a complete run of %s on build '%s' (LeakSanitizer / sanitizer report at exit): %s" % (
+                        rr["rc"], job["name"], job["flavour"], rr["err"][-1500:]), lines, job["flavour"])
             else:
-                raise MachineryError("non-reproducible harness failure (rc=%d) on %s: %s" % (rc, name, err[-800:]))
-        if exp is not None:
-            n, bad = compare_prediction(ctx, name, tp, exp)
+                raise MachineryError("non-reproducible harness failure (rc=%d) on %s: %s" % (rr["rc"], job["name"], rr["err"][-800:]))
+        if job["exp"] is not None:
+            n, bad = compare_prediction(ctx, job["name"], tp, job["exp"])
             npred += n
+    if nleak:
+        ctx.notes["scripts_with_a_sanitizer_report_at_exit"] = nleak
+    ctx.notes["successful_casts_by_stored_type_and_form"] = {t: {f: cast_hits.get(t + ":" + f, 0) for f in CAST_FORMS + sorted(OPEN_FORMS)
+                                                                  if cast_hits.get(t + ":" + f, 0)} for t in TYPES}
+    # the class the property singles out: a small payload with nothrow move and throwing copy, read through const-qualified targets
+    missing = [f for f in ("p_mc", "p_c", "p_cc", "v_c", "v_cc", "r_mc", "r_c") if not cast_hits.get("Small:" + f)]
     ctx.notes["calls_executed_on_real_objects"] = ncalls
     ctx.notes["injected_throws_observed"] = nthrow
     ctx.notes["l2_predictions_compared"] = npred
-    ctx.sample({"script": [json.dumps(x) for x in scripts[0][1][:10]]})
-    ctx.sample({"script": [json.dumps(x) for x in scripts[-1][1][:10]]})
-    with open(traces[0]) as f:
-        ctx.sample({"trace_lines": [next(f).strip()[:900] for _ in range(3)]})
+    ctx.notes["driver_restarts"] = {"restarts": restarts, "by_cause": kinds, "executions_dropped_after_restart_cap": dropped}
+    ctx.sample({"script": [json.dumps(x) for x in jobs[0]["lines"][:10]]})
+    ctx.sample({"script": [json.dumps(x) for x in jobs[-1]["lines"][:10]]})
+    with open(jobs[0]["trace"]) as f:
+        ctx.sample({"trace_lines": [next(f).strip()[:1200] for _ in range(3)]})
 
     # ---- validate every trace against L1
-    desyncs = []
-    res = core.validate_traces(ctx, TRACE_SPEC, TRACE_CFG, traces, classify=classify(findings, desyncs), parallel=max(1, NW // 2))
-    if DESYNC in ctx.known:
-        ctx.known.remove(DESYNC)
-    for path, rr in res:
-        if rr["accepted"] or '"op":"Desync"' not in rr["execution"][-1]:
-            continue
-        name = os.path.basename(path)
-        if name.startswith("sim-") or name.startswith("l2-"):
-            # a walk generated from AnyImpl assumed an outcome (an object was / was not constructed) the code did not
-            # produce, although everything the code did up to there is accepted by L1: the model is out of date
-            if len(ctx.drift) < 8:
-                ctx.drift.append("a call sequence generated from AnyImpl.tla left the preconditions on the real code (%s): %s" % (
-                    name, rr["execution"][-1][:400]))
-        else:
-            raise MachineryError("script %s left the C++ preconditions by itself: %s" % (name, rr["execution"][-1][:400]))
-    ctx.cov["evaluations"] = ctx.cov["events_validated"]
-    ctx.log("validated %d lines in %d traces (%d executions, %d injected throws observed, %d L2 predictions compared)" % (
-        ctx.cov["events_validated"], len(traces), ctx.cov["traces_validated_against_impl"], nthrow, npred))
+    validate_all(ctx, drivers, jobs, findings)
+    ctx.cov["evaluations"] += ctx.cov["events_validated"]
+    ctx.log("validated %d lines in %d traces (%d executions, %d injected throws observed, %d L2 predictions compared, %d driver restarts)" % (
+        ctx.cov["events_validated"], len(jobs), ctx.cov["traces_validated_against_impl"], nthrow, npred, restarts))
 
-    if (r2["violated"] or r2["rc"] != 0) and not ctx.violations:
-        ctx.drift.append("AnyImpl.tla does not refine Any.tla (%s) but the counterexample %s is accepted on the real code: "
-                         "the L2 model is out of date; see %s" % (r2["violated"], json.dumps(cex)[:600], r2["outfile"]))
-        ctx.notes["l2_refinement"] = "failed-not-reproduced"
-    if nthrow == 0:
+    for r2, c in l2_failed:
+        if not ctx.violations:
+            ctx.drift.append("AnyImpl.tla does not refine Any.tla (%s) but the counterexample %s is accepted on the real code: "
+                             "the L2 model is out of date; see %s" % (r2["violated"], json.dumps(c)[:600], r2["outfile"]))
+            ctx.notes["l2_refinement"] = "failed-not-reproduced"
+    if nthrow == 0 and not ctx.violations:
         raise MachineryError("vacuous run: the fault fuse never fired")
+    if missing and not ctx.violations:
+        raise MachineryError("vacuous run: no successful any_cast on a stored Small through the forms %s" % missing)
+    if kinds.get("terminate", 0) == 0 and "noexc" in flavours and not ctx.violations:
+        raise MachineryError("vacuous run: no failing any_cast ended in std::terminate on the XTL_NO_EXCEPTIONS build")
+    return finish(ctx, q, feats, taken_all, nwalks, nexec_rnd)
 
+
+def finish(ctx, q, feats, taken, nwalks, nexec):
+    ctx.notes.pop("_feats", None)
+    ctx.notes["optional_cast_forms_exercised"] = {fl: sorted(f for f, ft in OPEN_FORMS.items() if ft in fs) for fl, fs in feats.items()}
     return core.finish(
         ctx, "model_checking",
-        rule="TLC: L1 (Any.tla) over 3 any objects x 3 payload types x 2 values (+moved-from), all outcomes the standard allows, "
-             "fuse 0..1; L2 (AnyImpl.tla) => L1 over all 512 representation states x every call x argument x fuse 0..%d; "
-             "%d of the L2 transitions and %d simulation walks replayed on real xtl::any objects, %d random executions; "
-             "a case is one public call with its element events, result and the observers' report on all three objects, "
-             "validated by TLC against L1." % (1 if q else 2, taken, nwalks, nexec),
-        assumptions=["payload objects are identified by address through the harness registry; ids are assigned in construction order",
-                     "the projection uses has_value()/empty()/type()/any_cast<T>(const any*) of the object under test",
-                     "payload types: Small (16 bytes, nothrow move), Big (24 bytes), STM (16 bytes, throwing move); "
-                     "over-aligned payloads, ANY_IMPL_ANY_CAST_MOVEABLE and XTL_NO_EXCEPTIONS builds are not exercised"],
+        rule="TLC: L1 (Any.tla) over 3 any objects x {3 instrumented payload types | NC, shared_ptr, const char*} x 2 values (+moved-from), all "
+             "outcomes the standard allows, fuse 0..1%s; L2 (AnyImpl.tla) => L1 over every representation state x every call x argument x "
+             "fuse 0..%d for {Small, Big, STM} and for payloads without events; %d of the L2 transitions and %d simulation walks replayed on "
+             "real xtl::any objects, %d random executions over 3-5 objects and 11 payload types, on %d builds of the driver (%s); a case is "
+             "one public call with its element events, result, the observers' report on all five objects and the shared_ptr owner counts, "
+             "validated by TLC against L1; plus the rows of AnyTypes.tla compiled as static_asserts and calls."
+             % ("" if q else "; 4 objects in a third configuration", 1 if q else 2, taken, nwalks, nexec, len(feats), ", ".join(sorted(feats))),
+        assumptions=["payload objects of the instrumented types are identified by address through the harness registry; ids are assigned in construction order",
+                     "the projection uses has_value()/empty()/type()/any_cast<T>(any*)/any_cast<T>(const any*) over all 13 candidate types of the object under test",
+                     "payload types: Small (16 bytes, nothrow move, throwing copy), NC (16 bytes, nothrow copy and move), Big (24 bytes), STM (16 bytes, throwing move); "
+                     "without events: int, std::string, const char* (also from an array), int(*)(int) (also from a function), shared_ptr<int> (owner count "
+                     "observed), a 16-byte alignas(16) struct, a struct containing an any that contains a shared_ptr (xtl::any cannot hold an xtl::any directly)",
+                     "builds: g++ -O1 with each of ANY_IMPL_FAST_TYPE_INFO_COMPARE, ANY_IMPL_ANY_CAST_MOVEABLE, XTL_NO_EXCEPTIONS alone (not combined); "
+                     "clang++ and -O0/-O2 in the thorough tier only; one translation unit, one thread, libstdc++, x86-64",
+                     "types over-aligned beyond alignof(max_align_t), types whose operator new is replaced, volatile-qualified cast targets, type_info "
+                     "objects from other shared libraries (the case ANY_IMPL_FAST_TYPE_INFO_COMPARE is unsafe for) and allocation failure are not exercised",
+                     "throws are injected into copy/move constructors of the instrumented types only (std::string / shared_ptr copies are not made to throw)"],
         exhaustive=False)
